@@ -397,7 +397,10 @@ class Range(Operand):
             ctx.pop('sheet', None)
             self.attr['is_reference'] = True
 
-        return range2parts(None, **ctx)
+        try:
+            return range2parts(None, **ctx)
+        except sh.DispatcherError:  # E.g. the anchor of a multi-cell range.
+            raise TokenError(self.source)
 
     def __repr__(self):
         if self.attr.get('is_ranges', False):
